@@ -115,8 +115,7 @@ Proof. exact body_fixpoint_emitted. Qed.
    name-section vector by index, function ranges by id, the DWARF tables by start / address.  A changed key or a dropped
    sort changes the regenerated text and breaks this theorem. *)
 (* ---- the MODULE-level fixpoint: emit (parse (emit (parse w))) = emit (parse w) on the abstract section stream, for every stream with the
-   validator's guarantees, unless names are emitted AND synthesised (that case is open; every other section is proved for every
-   configuration).  Ingredients: every emitted stream is canonical (section order, types strictly sorted and distinct, imports first,
+   validator's guarantees, unless names are emitted AND synthesised (that case needs the extra input premise [locals_in_range], see the end of this block).  Ingredients: every emitted stream is canonical (section order, types strictly sorted and distinct, imports first,
    element tables canonical, one name section; bodies are flattenings of normal forms); on the second trip every renumbering is the identity;
    hence every section is reproduced literally.  The second trip cannot fail.
    The unrestricted statement is FALSE OF THE MODEL: the witness has an out-of-range local index, which the model's [valid_stream] does not
@@ -232,6 +231,35 @@ Theorem c08_refutation_witness_has_local_out_of_range :
 Proof. exact wP_violates. Qed.
 
 
+(* ---- the open case CLOSED: for EVERY configuration (synthetic names included) the round trip is a fixpoint on every stream with the validator's
+   guarantees whose bodies use no local index out of range (the executable premise [locals_in_range]; the real validator guarantees it, the model's
+   [valid_stream] does not - it is exactly what the refutation witness above violates); the second trip exists; one trip lands on a fixed point *)
+From WV Require Import Proofs.ModFix41.
+Theorem c08_module_fixpoint_all_configs :
+  forall (cf : config) (ver : str) (w : wmod) (ilen : wins -> N) (s1 : pst) 
+           (e1 : emitted) (s2 : pst) (e2 : emitted),
+         two_trips cf ver w ilen s1 e1 s2 e2 -> valid_stream w -> locals_in_range w -> em_secs e2 = em_secs e1.
+Proof. exact module_fixpoint_all_configs. Qed.
+
+Theorem c08_module_fixpoint_total_all_configs :
+  forall (cf : config) (ver : str) (w : wmod) (s1 : pst) (ilen : wins -> N) (e1 : emitted),
+         valid_stream w ->
+         locals_in_range w ->
+         parseM cf ver w = POk s1 ->
+         emitM (ps_m s1) ilen [] = Ok e1 ->
+         valid_stream (em_secs e1) /\
+         (exists (s2 : pst) (e2 : emitted),
+            parseM cf ver (em_secs e1) = POk s2 /\ emitM (ps_m s2) ilen [] = Ok e2 /\ em_secs e2 = em_secs e1).
+Proof. exact module_fixpoint_total_all_configs. Qed.
+
+Theorem c08_round_trip_idempotent_all_configs :
+  forall (cf : config) (ver : str) (ilen : wins -> N) (w w1 : wmod),
+         valid_stream w ->
+         locals_in_range w ->
+         trip cf ver ilen w = Some w1 -> forall n : nat, (n >= 1)%nat -> trips cf ver ilen n w = Some w1.
+Proof. exact emit_parse_idempotent_all_configs. Qed.
+
+
 From WV Require Gen.ConfigEmit Proofs.Config.
 (* the order in which Module::emit_wasm calls the section emitters (regenerated on every run) *)
 Theorem c08_emit_wasm_source_pinned : WV.Gen.ConfigEmit.emit_wasm_skeleton = WV.Proofs.Config.expected_emit_wasm_skeleton.
@@ -284,3 +312,6 @@ Print Assumptions c08_module_fixpoint_all_configs_partial.
 Print Assumptions c08_synthetic_names_every_local_named.
 Print Assumptions c08_synthetic_names_every_function_named.
 Print Assumptions c08_refutation_witness_has_local_out_of_range.
+Print Assumptions c08_module_fixpoint_all_configs.
+Print Assumptions c08_module_fixpoint_total_all_configs.
+Print Assumptions c08_round_trip_idempotent_all_configs.
